@@ -1606,6 +1606,31 @@ theorem fit_no_raise_partial (S : Schema) (hdet : detB S = true) (hfill : S.fill
   exact fitStep_raises_in_place S (detS_of_detB S hdet) (fillersOK_of_B S hfill) st
     (fun it hit => Option.isSome_iff_exists.1 (hin.1.2 it hit)) hwf.1 e h
 
+/-- **`fit_raise_sites`** — … and inside `place_nodes` only two computations can fail: the take loop (that is
+    `close_node_start`: `fill_before` answering `None` for the children of a start-open node, or no match over them) and
+    the pushing of the open end (`content_match_at(child_count)` on a node whose children are no matchable beginning of
+    its content: finding C11-fitter-partial-node).  Closing and opening frontier nodes, adding to `placed`, the optional
+    `close_frontier_node` and the new unplaced slice always go through. -/
+theorem fit_raise_sites (S : Schema) (hdet : detB S = true) (hfill : S.fillersOKB = true) (hwrap : S.wrapOKB = true)
+    (hlab : S.labelsOKB = true) (st : FitState) (hin : st.inStepB = true) (hwf : st.unplaced.wf = true) (e : FitErr)
+    (h : fitStep S st = .error e) :
+    ∃ f, findFittable S st = .ok (some f) ∧
+      ((∃ d fty os oec total q add, takeLoop S d fty os oec total (f.fragment st.unplaced) 0 q add = .error e) ∨
+       (∃ n fr, pushOpenEnd S n (f.fragment st.unplaced) fr = .error e)) := by
+  obtain ⟨f, hf1, hf2⟩ := fit_no_raise_partial S hdet hfill st hin hwf e h
+  refine ⟨f, hf1, ?_⟩
+  simp only [FitState.inStepB, Bool.and_eq_true, Bool.not_eq_eq_eq_not, Bool.not_true, List.all_eq_true,
+    decide_eq_true_eq] at hin
+  simp only [Slice.wf, Bool.and_eq_true, decide_eq_true_eq] at hwf
+  obtain ⟨⟨hne, hall⟩, hsp⟩ := hin
+  have inv : InStep st := by
+    refine ⟨fun it hit => Option.isSome_iff_exists.1 (hall it hit), ?_, spineR_rspineOK _ _ hsp⟩
+    intro h0
+    rw [h0] at hne
+    simp at hne
+  exact placeNodes_raise_sites S (detS_of_detB S hdet) (fillersOK_of_B S hfill) (wrapOK_of_B S hwrap)
+    (labelsOK_of_B S hlab) st inv hwf.1 f hf1 e hf2
+
 /-- **`coherent_invariant`** — the key invariant `FitState.coherentB` (with the ghost level) is an invariant
     of the loop of `fit` (Proofs/FitCoherent.lean, `Coh` = the proposition behind the Boolean):
     * **init**: the state `Fitter.__init__` builds is coherent (ghost level = `depth(from)`);
